@@ -1,7 +1,9 @@
 #!/bin/bash
-# Applies every seeded change to /repo in turn, runs the intended check (quick), reverts; prints one line each.
+# Runs the intended check (quick) of every seeded change against a scratch copy of /repo with the change applied
+# (tools/try_mutant.sh: /repo itself is not touched); prints one line each.  MATRIX_JOBS of them at a time (default 3).
 cd "$(dirname "$0")/.."
-for d in seeded/*/; do
-  name=$(basename $d); prop=$(python3 -c "import json;print(json.load(open('$d/meta.json'))['property'])")
-  tools/try_mutant.sh $name $prop quick 2>&1 | head -1
-done
+ls seeded | while read name; do
+  prop=$(python3 -c "import json;print(json.load(open('seeded/$name/meta.json'))['property'])")
+  echo "$name $prop"
+done | xargs -P ${MATRIX_JOBS:-3} -L 1 bash -c 'tools/try_mutant.sh $0 $1 quick 2>&1 | head -1'
+echo "== done"
